@@ -1561,16 +1561,45 @@ def _body_of(h):
 
 
 def _use_count(body, name):
+    """(number of reads of name, is any of them evaluated repeatedly or later: inside a loop, a lambda, or a comprehension other than as
+    the iterable of its first `for`, which is evaluated once, at once)"""
     c = 0
     inloop = False
     for s in body:
         for n in ast.walk(s):
             if isinstance(n, ast.Name) and n.id == name and isinstance(n.ctx, ast.Load):
                 c += 1
-        for n in ast.walk(s):
-            if isinstance(n, (ast.For, ast.While, ast.ListComp, ast.SetComp, ast.DictComp, ast.GeneratorExp, ast.Lambda)):
-                if any(isinstance(m, ast.Name) and m.id == name for m in ast.walk(n)):
-                    inloop = True
+
+        def rec(n, repeated):
+            nonlocal inloop
+            if isinstance(n, ast.Name) and n.id == name and repeated:
+                inloop = True
+            if isinstance(n, (ast.ListComp, ast.SetComp, ast.DictComp, ast.GeneratorExp)):
+                for i, g in enumerate(n.generators):
+                    rec(g.iter, repeated or i > 0)
+                    rec(g.target, True)
+                    for f in g.ifs:
+                        rec(f, True)
+                for f in ('elt', 'key', 'value'):
+                    if hasattr(n, f):
+                        rec(getattr(n, f), True)
+                return
+            if isinstance(n, ast.Lambda):
+                rec(n.body, True)
+                return
+            if isinstance(n, (ast.For, ast.AsyncFor)):
+                rec(n.iter, repeated)
+                for b in n.body + n.orelse:
+                    rec(b, True)
+                return
+            if isinstance(n, ast.While):
+                rec(n.test, True)
+                for b in n.body + n.orelse:
+                    rec(b, True)
+                return
+            for ch in ast.iter_child_nodes(n):
+                rec(ch, repeated)
+        rec(s, False)
     return c, inloop
 
 
